@@ -82,4 +82,16 @@ CLAIMED['C12'] = dict(
          'CRC collisions.  iovector::extract_front_continuous is an assumed contract (its view-level core is proved in C14).',
     technique='deductive verification: loop-free full-domain CBMC harnesses on mechanically lowered real code; native replay on the real classes',
     design='§6 C12')
+CLAIMED['C13'] = dict(
+    text='Proof of the framing kernel, lowered from /repo on every run: Parser::skip_chars / skip_spaces (Hoare loop rule) and '
+         'extract_until_char keep the cursor inside the text and return (offset,length) inside it; HeadersBase::kv_add never writes '
+         'below the header text; HeadersBase::parse (loop rule on the real loop, callee contracts) reads only inside the text '
+         '(Parser::operator[] precondition), stores only (offset,length) pairs inside the text, terminates (variant: free index slots) '
+         'and returns 0/-1; BodyReadStream::read delivers first the buffered bytes then the stream, never more than '
+         'min(request, Content-Length remaining) and keeps the remaining-length accounting exact.  A native run checks on the real '
+         'Headers parser that the parse of a text never depends on bytes outside it.',
+    note=TRUST + ' Not decided: header-terminator search across fragments (Message::append_bytes), start-line/URL parsing and header lookup '
+         '(estring_view, std::sort), chunked transfer coding reader/writer, "same parse for every fragmentation" beyond these kernels.',
+    technique='deductive verification: Hoare loop rule + loop-free full-domain CBMC harnesses on mechanically lowered real code; native replay',
+    design='§6 C13')
 NA = {}
